@@ -639,6 +639,13 @@ func validateLeafTypeValue(lt *sdcpb.SchemaLeafType, v any) error {
 	case "leafref":
 		// TODO: does this need extra validation?
 		return nil
+	case "binary", "bits", "instance-identifier":
+		// carried in their lexical form (a typed client may send binary as bytes)
+		switch v.(type) {
+		case string, []byte:
+			return nil
+		}
+		return fmt.Errorf("unexpected casted type %T in %v", v, lt.GetType())
 	case "empty":
 		switch v.(type) {
 		case *emptypb.Empty:
